@@ -1,2 +1,104 @@
-// Package glslx (placeholder).
+// Package glslx is an independent reader and executor for the GLSL compute
+// shaders that naga's GLSL backend emits (`#version 430 core` .. `460 core`,
+// `310 es`, `320 es`).  It is the "hardware" of the verification harness for
+// the GLSL backend: it tokenizes, parses and interprets the emitted text
+// strictly according to the GLSL 4.30-4.60 / ESSL 3.10-3.20 specifications,
+// never consulting naga, executes ONE invocation of main() over byte buffers
+// and reports the final buffer contents.
+//
+// # API
+//
+//	Parse(src)            -> *Unit (syntax tree, #version, local_size, directives)
+//	Run(src, xrt.Input)   -> xrt.Outcome      (also (*Unit).Run)
+//	(*Unit).Blocks()      -> every buffer/uniform block with its computed std140/std430 layout
+//	(*Unit).Decls(), Refs(), Problems()  -> declarations, identifier references with the
+//	                         declaration each resolves to, and scoping problems
+//	LayoutOf(type, packing, rowMajor)    -> the layout function itself
+//
+// Buffers are found in Input.Buffers under the key "<G>.<B>" taken from naga's
+// identifier `_group_<G>_binding_<B>_..` (the block's instance name, or its
+// first member when the block has no instance name); if that key is absent and
+// the block has layout(binding=N), the key "binding=<N>" is used.  A block that
+// is accessed but has no buffer yields Skip.  Input.Entry is not consulted (a
+// GLSL unit has exactly one entry point, main).
+//
+// # Supported subset
+//
+// Types: bool int uint float, vecN ivecN uvecN bvecN, matN / matCxR, arrays
+// (arrays of arrays, unsized last member of a buffer block, .length()),
+// structs.  Storage: const, global ("private"), shared, local, in/out/inout
+// parameters with copy-in/copy-out semantics, buffer and uniform interface
+// blocks with or without instance name (std140, std430, row_major /
+// column_major, layout(offset=), layout(align=), binding=, readonly /
+// writeonly).  Values in blocks are read from / written to the bound bytes at
+// the offsets computed by this package's implementation of OpenGL 4.6 section
+// 7.6.2.2 - not at the offsets naga assumes.
+//
+// Expressions: every operator with GLSL's typing rules (component-wise vector
+// and matrix arithmetic, scalar broadcast, linear-algebraic mat*mat, mat*vec,
+// vec*mat, == and != on aggregates, short-circuit && ||, lazy ?:, ^^, comma,
+// ++/--, all compound assignments), swizzles as r- and l-values (xyzw, rgba,
+// stpq), indexing, constructors (conversion, splat, diagonal and
+// matrix-from-matrix, component lists, array and struct constructors), the
+// implicit conversions int->uint, int->float, uint->float of desktop GLSL 4.x
+// (none in ESSL: there a mismatch is reported as invalid GLSL).
+// Integer + - * wrap modulo 2^32; float arithmetic is IEEE binary32 with every
+// operation rounded to binary32; transcendental functions are evaluated in
+// binary64 and rounded.
+//
+// Statements: declarations, expression statements, if/else, switch (fall
+// through, default anywhere, break), for / while / do-while, break, continue,
+// return, nested blocks, user functions (overloads resolved by arity and
+// type).  Built-ins: the angle/trigonometry, exponential, common, geometric,
+// matrix, vector-relational, integer (bitCount, bitfieldReverse/Extract/Insert,
+// findLSB/MSB), floating-point pack/unpack, *BitsTo*, fma, ldexp, frexp, modf,
+// atomic* on buffer and shared memory, barriers (no-ops for one invocation),
+// gl_LocalInvocationID, gl_LocalInvocationIndex, gl_GlobalInvocationID,
+// gl_WorkGroupID, gl_NumWorkGroups, gl_WorkGroupSize.
+//
+// Preprocessor lines (#version, #extension, #pragma), precision statements and
+// layout(local_size_*) in are parsed and recorded.
+//
+// # Trap rules (Outcome.Trap): behaviour GLSL leaves undefined
+//
+//   - integer / or % with a zero divisor (signed and unsigned, scalar or per component)
+//   - INT_MIN / -1
+//   - % with a negative operand (includes INT_MIN % -1)
+//   - << or >> with a negative count or a count >= 32
+//   - int(f) / uint(f) (and ivec/uvec constructors) of NaN, +-Inf, or a value
+//     whose truncation does not fit; uint(f) of any f < 0 (-0.0 is not negative)
+//   - array, vector or matrix index out of range, for reads and writes, on
+//     l-values and r-values, including runtime-sized buffer arrays whose length
+//     is (buffer length - array offset) / stride
+//   - any load or store that falls outside the bound buffer's bytes
+//   - read of a word of local, global or shared memory that was never written
+//     and has no initialiser (per-word defined bits; aggregate copies read every
+//     word; an out parameter the callee did not write makes the argument
+//     undefined again; storing it into a buffer traps)
+//   - a non-void function that reaches its end without return
+//   - clamp with minVal > maxVal (float, int, uint)
+//   - pow(x, y) with x < 0, or x == 0 and y <= 0
+//   - bitfieldExtract / bitfieldInsert with offset < 0, bits < 0 or offset + bits > 32
+//
+// Defined behaviour that is computed rather than trapped: integer wrap-around
+// (including -INT_MIN, abs(INT_MIN), INT_MIN * -1), >> on negative ints
+// (sign-extending), division of negatives (truncating), float division by zero,
+// mix / smoothstep outside [0,1], findMSB/findLSB of 0 (-1), bitfieldExtract with
+// bits == 0.  "Result undefined" cases that are not on the list above are computed
+// with the common IEEE result instead of trapping: sqrt/log/inversesqrt/asin/acos/
+// acosh/atanh outside their domain (NaN or +-Inf), atan(0,0), normalize(0),
+// smoothstep with edge0 >= edge1, min/max/clamp with NaN (spec formulas applied
+// literally), ldexp overflow, frexp of Inf/NaN, pack* of NaN (0).
+//
+// # Skip (Outcome.Skip)
+//
+// "parse error: ... at L:C", "unsupported: ... at L:C" (texture / image /
+// sampler variables, doubles and 64-bit integers, subgroup built-ins, discard,
+// initializer lists, preprocessor macros, blocks with shared/packed layout,
+// lowp/mediump precision in ESSL, non-compute shaders, ...), "invalid GLSL: ... at
+// L:C" (the text violates GLSL's static rules on an executed path: type
+// mismatch without implicit conversion, ?: with a vector condition, assignment
+// to const / uniform / readonly, undeclared identifier, redeclaration, bad
+// swizzle or constructor, recursion, ...), "no buffer bound for block ...",
+// "fuel", and "internal: ..." for a recovered panic.
 package glslx
